@@ -1,5 +1,5 @@
-CONSTANTS Discoveries = {"flag", "flag_over_cwd"}
+CONSTANTS Discoveries = {"flag", "flag_over_cwd", "cwd_over_parent", "cwd_over_all"}
 INIT Init
 NEXT Next
-INVARIANTS Emit ModelAgrees
+INVARIANTS Emit ModelAgrees DiscoveryOk
 CHECK_DEADLOCK FALSE
